@@ -51,6 +51,10 @@ def cases(tier, seed):
         cell_cls = planted.CELL_CLASSES[j % len(planted.CELL_CLASSES)]
         out.append({"kind": "synthetic", "s": int(rng.integers(1 << 30)), "cell": cell_cls, "pattern": patterns.CLASSES[(j // 2) % len(patterns.CLASSES)],
                     "atol": [0.05, 0.2, 0.01, 0.5][(j // 3) % 4], "dims": [[2, 1, 1], [1, 2, 1], [1, 1, 2], [2, 2, 1], [1, 3, 2], [2, 1, 3]][j % 6]})
+    # cells typed with whole numbers (nested list of ints / integer array), as a user writes Atoms(cell=[[12,0,0],[0,12,0],[0,0,12]])
+    for j in range(30 if tier == "quick" else 2000):
+        out.append({"kind": "synthetic", "s": int(rng.integers(1 << 30)), "cell": ["ortho", "ortho", "tri+-+", "upper_tri"][j % 4], "pattern": patterns.CLASSES[1 + j % (len(patterns.CLASSES) - 1)],
+                    "atol": [0.05, 0.2, 0.01][j % 3], "dims": [[2, 1, 1], [1, 2, 1], [1, 1, 2], [2, 2, 1]][j % 4], "whole_number_cell": True})
     out.append({"kind": "pinned_hint_case", "s": 0})
     # supercells of a few thousand atoms (27 images of them: tens of thousands of candidate positions)
     for j in range(2 if tier == "quick" else 40):
@@ -277,7 +281,10 @@ def run_case(case, ctx):
         atol = case["atol"]
         built = planted.build(rng, pat, case["cell"], atol, n_copies=1 if case["cell"].endswith("minimal") else int(rng.integers(1, 4)),
                               crossings=[int(x) for x in rng.integers(0, 4, 3)], poses=[planted.POSES[int(x)] for x in rng.integers(0, len(planted.POSES), 3)],
-                              decoys=["mirror"] if rng.integers(2) else [], n_bystanders=int(rng.integers(0, 6)), n_distractors=int(rng.integers(0, 3)))
+                              decoys=["mirror"] if rng.integers(2) else [], n_bystanders=int(rng.integers(0, 6)), n_distractors=int(rng.integers(0, 3)),
+                              whole_number_cell=bool(case.get("whole_number_cell")))
+        if built.get("int_cell"):
+            st.count("synthetic_structures_with_a_cell_of_whole_numbers")
         S, P = built["atoms"], patterns.to_atoms(pat)
         if case["s"] % 7 == 3 and len(pat["elements"]) >= 2:
             # a pattern that asks for an element the structure does not contain (a fluorinated linker searched in the plain
@@ -445,6 +452,8 @@ def requirements(stats, tier):
         need.append("too few clear base matches: %d" % stats.get("base_clear_groups"))
     if stats.get("searches_for_a_pattern_with_an_element_the_structure_lacks") < (10 if tier == "quick" else 1000):
         need.append("patterns with an element the structure lacks: %d" % stats.get("searches_for_a_pattern_with_an_element_the_structure_lacks"))
+    if stats.get("synthetic_structures_with_a_cell_of_whole_numbers") < (25 if tier == "quick" else 1500):
+        need.append("structures whose cell is typed with whole numbers: %d" % stats.get("synthetic_structures_with_a_cell_of_whole_numbers"))
     if stats.get("strict_tolerance_cases_with_clear_matches") < (8 if tier == "quick" else 500):
         need.append("cases with a strict tolerance (1e-5, 1e-6) and clear matches: %d" % stats.get("strict_tolerance_cases_with_clear_matches"))
     if stats.get("big_supercell_searches") < (2 if tier == "quick" else 40):
